@@ -281,6 +281,57 @@ impl C10 {
                     out.op(hash_line(SAMPLE_ID_MULTIHASH_CODE, &good), "hash/rnd-under-sample-code", true);
                 }
 
+                // ---- adversarial but WELL-PROVEN row-namespace-data: a proper contiguous sub-range of the namespace's shares
+                // of a row, with a freshly built, valid NMT range proof for exactly the kept shares (first dropped, last
+                // dropped, a middle part only): every proof check passes except completeness of the namespace
+                {
+                    let k = (w / 2) as usize;
+                    // the longest run of one namespace inside a row of the original data
+                    let mut best: Option<(u16, usize, usize)> = None;
+                    for r in 0..k {
+                        let mut c = 0;
+                        while c < k {
+                            let ns_c = eds.share(r as u16, c as u16).unwrap().namespace();
+                            let mut e = c + 1;
+                            while e < k && eds.share(r as u16, e as u16).unwrap().namespace() == ns_c {
+                                e += 1;
+                            }
+                            if e - c >= 2 && best.map(|(_, s0, e0)| e - c > e0 - s0).unwrap_or(true) {
+                                best = Some((r as u16, c, e));
+                            }
+                            c = e;
+                        }
+                    }
+                    if let Some((r, s0, e0)) = best {
+                        let ns = eds.share(r, s0 as u16).unwrap().namespace();
+                        let mut ranges = vec![(s0 + 1, e0, "hash/rnd-subrange-first-dropped"), (s0, e0 - 1, "hash/rnd-subrange-last-dropped")];
+                        if e0 - s0 >= 3 {
+                            ranges.push((s0 + 1, e0 - 1, "hash/rnd-subrange-middle-only"));
+                        }
+                        ranges.push((s0, s0 + 1, "hash/rnd-subrange-single-share"));
+                        for (a, b, tag) in ranges {
+                            let mut nmt = eds.row_nmt(r).unwrap();
+                            let (leaves, proof) = nmt.get_range_with_proof(a..b);
+                            let proof: celestia_types::nmt::NamespaceProof = proof.into();
+                            let raw = RawRnd {
+                                shares: leaves.into_iter().map(|data| celestia_proto::shwap::Share { data }).collect(),
+                                proof: Some(proof.into()),
+                            };
+                            let blk = block_bytes(rnd_cid(ns, r, h), raw.encode_to_vec());
+                            out.op(hash_line(ROW_NAMESPACE_DATA_ID_MULTIHASH_CODE, &blk), tag, true);
+                        }
+                        // control: the full range with the same kind of proof is the honest block
+                        let mut nmt = eds.row_nmt(r).unwrap();
+                        let (leaves, proof) = nmt.get_range_with_proof(s0..e0);
+                        let proof: celestia_types::nmt::NamespaceProof = proof.into();
+                        let raw = RawRnd {
+                            shares: leaves.into_iter().map(|data| celestia_proto::shwap::Share { data }).collect(),
+                            proof: Some(proof.into()),
+                        };
+                        out.op(hash_line(ROW_NAMESPACE_DATA_ID_MULTIHASH_CODE, &block_bytes(rnd_cid(ns, r, h), raw.encode_to_vec())), "hash/rnd-full-range-proof", true);
+                    }
+                }
+
                 // ---- get_block_container
                 let cid = sample_cid(r, c, h);
                 let nb = rng.usize(0, 40);
